@@ -41,18 +41,24 @@ META = {
                  "varied (each call bit-equal to a fresh module, public attributes unchanged), extents 1e-6..1e6",
     "trusted": ["torch.linalg.svd / det / topk / eig / lstsq are external kernels (contracts); the driver's Jacobi SVD stand-in is "
                 "re-checked against the SVD contract on every call",
-                "the existence of an SVD for every real 3x3 matrix (hypothesis `SVDOk` of the theorems) is classical mathematics, not proved here"],
+                "the existence of an SVD of the matrices the code decomposes (hypothesis `SVDOk`, pointwise in every svdtf/svdstf/EPnP-tail theorem, "
+                "for all matrices in `svdtf_alignOk`) is classical mathematics, not proved here; the ICP theorems themselves do not depend on it: "
+                "`exists_alignOk` gives an optimal aligner by compactness"],
     "assumptions": ["svdstf: Umeyama scale above mat2Sim3's rank threshold atol=1e-5 and sources not all equal (otherwise the code raises / divides by zero; "
                     "outside the property's quantifier)",
-                    "ICP basin clause: the initial nearest-neighbour assignment is the true correspondence (hypothesis of icp_recovers)"],
+                    "ICP recovery clause: every point moved by less than half the distance from its image to any other target "
+                    "(hypothesis of icp_recovers_small_perturbation / icpWith_recovers_small_perturbation; proved, not sampled)"],
     "partial": ["EPnP: only the tail (_compute_scale, _compute_solution) is modelled and proved (epnp_compute_scale_exact, epnp_tail_exact; stream "
                 "epnp_scale); the head (control basis, alpha solve, eig null space, lstsq beta candidates, GN refinement, candidate selection) is a "
                 "pipeline of external kernels: ground-truth comparison on generated scenes only (sampling)",
                 "floating-point accuracy of the returned transform rides on the correspondence tolerances (theorems are over the reals); "
                 "unit norm of the returned quaternion is checked to 32 eps (not re-normalised product of float SVD factors), EPnP accuracy "
                 "against empirical tier tolerances (>= 50 x the worst of 20 000 clean scenes per tier)",
-                "ICP 'recovers small exact rigid perturbations': proved under the explicit basin hypothesis (correct initial assignment); that a "
-                "given perturbation size implies the hypothesis is checked by sampling"],
+                "ICP theorems are about the default ord = 2 / dim = -1 (Euclidean nearest neighbours); forward(ord=..., dim=...) is not modelled: for "
+                "ord in {1, inf} the clause 'never a larger mean squared closest-point distance' is false of the code (observation, notes/C17.md); the "
+                "harness checks there the error handed to the stepper, recovery in the ord-basin and equality with a fresh module only",
+                "statelessness of a module across calls is definitional in the model (the stepper object, which forward mutates and resets, is not part "
+                "of IcpMod): for the code it is decided by the history / lifecycle streams (sampling)"],
 }
 
 ATOL = 1e-5
